@@ -2,11 +2,11 @@
 """Print the per-property status table of DESIGN.md §10.1 from props/*.json (theorem counts by kind)."""
 import json, glob, collections
 tot = collections.Counter()
-print("| property | Lean modules (theorem files) | theorems proved / partial / witness | level claimed |")
+print("| property | Lean modules (theorem files) | theorems proved / partial / witness | deciding technique (MANIFEST) |")
 print("|---|---|---|---|")
 for f in sorted(glob.glob('/verif/props/C*.json')):
     d = json.load(open(f)); pid = f.split('/')[-1][:-5]
     k = collections.Counter(t['kind'] for t in d['theorems']); tot.update(k)
     mods = ", ".join(m.replace('LopdfModel.', '') for m in d.get('lean_modules', []))
-    print(f"| {pid} | {mods} | {k['proved']} / {k['partial']} / {k['witness']} | {d['manifest'].get('level_claimed', d['manifest'].get('level',''))} |")
+    print(f"| {pid} | {mods} | {k['proved']} / {k['partial']} / {k['witness']} | {d['manifest'].get('technique','')[:160]} |")
 print(f"\nTotal: {sum(tot.values())} theorems listed ({tot['proved']} proved, {tot['partial']} partial, {tot['witness']} witness).")
